@@ -198,6 +198,9 @@ func c05Alphabet(s *sessSys) []sessReq {
 						p[0].UEIP = "" // the uplink rule learns the address from the downlink one
 					}
 					mk("est-choose-alloc", p, f, q)
+					// a default and a dedicated downlink flow, both asking the UP for the (one) UE address
+					p3 := append(append([]sPDR{}, p...), sPDR{ID: 5, Prec: 60, Src: ie.SrcInterfaceCore, UEAlloc: true, SDF: "permit out udp from 10.7.0.0/16 5000 to assigned", FAR: 2, QERs: p[1].QERs})
+					mk("est-choose-alloc-two-dl", p3, f, q)
 					// rejected after the UE address was allocated and the TEID chosen: a later PDR is refused
 					p2 := append(append([]sPDR{}, p...), sPDR{ID: 9, Prec: 10, Src: ie.SrcInterfaceCore, UEIP: "16.9.9.9", BadSDF: true, FAR: 2})
 					mk("est-choose-alloc-rejected", p2, f, q)
